@@ -1,15 +1,19 @@
 // h_fftw_c15: runs FFTW-adaptor cases on the real library (compiled against BM_REPO/include on every
 // run) and prints API-level observables:
-//   V  sizes / strides / base of both views as the library reports them
+//   V  sizes / strides / base / first index of every extension of both views as the library reports them
 //   G  the arguments the adaptor handed to fftw_plan_guru64_dft (interposed), pointers as element
 //      offsets from the root arrays
 //   X  order of the FFTW calls, the pointers given to fftw_execute_dft
-//   W  the elements of the output root that changed (out-of-place cases)
-//   M  direct monitors on the library's own output: result == O(N^2) direct DFT in long double,
-//      input unchanged, nothing outside the output view touched, guard cells, forward-then-backward
+//   W  the elements of the output root that changed (out-of-place cases); a digest above 20000 elements
+//   M  direct monitors on the library's own output: result == O(N^2) direct DFT in long double (a sample of
+//      64 output elements when N * Nt > 2e7), input unchanged, nothing outside the output view touched, guard
+//      cells, forward-then-backward, the planner flags keep the arrays intact by FFTW's documented contract,
+//      and the arrays were bitwise the same before and after the (interposed) planning call
 //   I  numbers behind M (not compared)
-// Input (stdin): case <id> / dim D / inroot e.. / inop <op> .. / out separate|same|shared /
-//                outroot e.. / outop <op> .. / which b.. / sign s / api a / end
+// Input (stdin): case <id> / dim D / inroot e.. / [inbase b..] / inop <op> .. / out separate|same|shared /
+//                outroot e.. / [outbase b..] / outop <op> .. / which b.. / sign s / api a / end
+// inbase / outbase: first index of every extension of the root (default 0); ops: sliced a b, strided s,
+// rotated, unrotated, transposed, reversed, reindexed i, reindexedl i j .., blocked a b
 #include <boost/multi/adaptors/fft.hpp>
 #include <boost/multi/adaptors/fftw.hpp>
 #include <boost/multi/array.hpp>
@@ -42,6 +46,7 @@ struct Op {
 };
 struct Side {
 	std::vector<idx_t> root;
+	std::vector<idx_t> rbase;  // first index of every extension of the root; empty = all 0
 	std::vector<Op>    ops;
 };
 struct Case {
@@ -76,11 +81,29 @@ template<int D> struct View {
 template<int D, std::size_t... I> auto make_ext(std::vector<idx_t> const& e, std::index_sequence<I...> /*unused*/) {
 	return multi::extensions_t<D>{multi::iextension{0, e[I]}...};
 }
+template<int D, std::size_t... I> auto make_ext(std::vector<idx_t> const& b, std::vector<idx_t> const& e, std::index_sequence<I...> /*unused*/) {
+	return multi::extensions_t<D>{multi::iextension{(b.empty() ? 0 : b[I]), (b.empty() ? 0 : b[I]) + e[I]}...};
+}
 
 template<int D, class X> View<D> wrap(X&& x) { return View<D>{x.layout(), const_cast<C*>(x.base())}; }  // NOLINT
 
+template<int D, class S, std::size_t... I> View<D> reindex_n(S&& s, std::vector<idx_t> const& a, std::index_sequence<I...> /*unused*/) {
+	return wrap<D>(s.reindexed(a[I]...));
+}
+template<int D, int K, class S> View<D> reindex_dyn(S&& s, std::vector<idx_t> const& a) {
+	if constexpr(K > D) {
+		throw std::runtime_error("reindexedl: more indices than dimensions");
+	} else {
+		if(static_cast<int>(a.size()) == K) { return reindex_n<D>(s, a, std::make_index_sequence<K>{}); }
+		return reindex_dyn<D, K + 1>(s, a);
+	}
+}
+
 template<int D> View<D> apply_op(View<D> const& v, Op const& op) {
 	auto s = v.sub();
+	if(op.name == "reindexed") { return wrap<D>(s.reindexed(op.a[0])); }
+	if(op.name == "reindexedl") { return reindex_dyn<D, 1>(s, op.a); }
+	if(op.name == "blocked") { return wrap<D>(s.blocked(op.a[0], op.a[1])); }
 	if(op.name == "sliced") { return wrap<D>(s.sliced(op.a[0], op.a[1])); }
 	if(op.name == "strided") { return wrap<D>(s.strided(op.a[0])); }
 	if(op.name == "rotated") { return wrap<D>(s.rotated()); }
@@ -107,6 +130,25 @@ template<int K, int D, class W> C* elem_(W&& w, std::vector<idx_t> const& x) {
 template<int D> C* elem(View<D> const& v, std::vector<idx_t> const& x) {
 	auto s = v.sub();
 	return elem_<0, D>(s, x);
+}
+// the element at POSITION x (zero-based) of a view whose extensions start at `first`
+template<int D> C* elem_at(View<D> const& v, std::vector<idx_t> const& first, std::vector<idx_t> const& x) {
+	std::vector<idx_t> y(x.size());
+	for(std::size_t k = 0; k != x.size(); ++k) { y[k] = x[k] + first[k]; }
+	return elem<D>(v, y);
+}
+// first index of every extension, as the library reports it
+template<int D> std::vector<idx_t> firsts_of(View<D> const& v) {
+	auto const x = v.sub().extensions();
+	return x.apply([](auto... e) { return std::vector<idx_t>{static_cast<idx_t>(e.first())...}; });
+}
+static std::string join_firsts(std::vector<idx_t> const& f, std::vector<idx_t> const& sz) {
+	std::ostringstream os;
+	for(std::size_t k = 0; k != f.size(); ++k) {
+		os << (k ? "," : "");
+		if(sz[k] >= 1) { os << f[k]; } else { os << '*'; }
+	}
+	return os.str();
 }
 
 static bool next_idx(std::vector<idx_t>& x, std::vector<idx_t> const& sz) {
@@ -195,6 +237,13 @@ template<int D> void call_api(Case const& c, View<D> const& vin, View<D> const& 
 	}
 }
 
+// the planner flags that decide WHAT is computed and which arrays may be written, and when (fftw3.h:492-500):
+// DESTROY_INPUT 1, EXHAUSTIVE 8, PRESERVE_INPUT 16, PATIENT 32, ESTIMATE 64, WISDOM_ONLY 1<<21 (MEASURE is 0).
+// Only these are compared with the model; UNALIGNED, CONSERVE_MEMORY and the undocumented tuning bits are not
+// observables of the property.  The I line shows the raw value.
+constexpr unsigned C15_SEMANTIC_FLAGS = 1U | 8U | 16U | 32U | 64U | (1U << 21);
+constexpr idx_t W_LIST_MAX = 20000;  // above: the W line is a digest (same definition as in ocaml/c15_driver.ml)
+
 template<int D> void run_case(Case const& c) {
 	bool const same   = (c.mode == "same");
 	bool const shared = (c.mode == "shared");
@@ -204,13 +253,13 @@ template<int D> void run_case(Case const& c) {
 	if(!same && !shared) { bout_own = std::make_unique<Buffer>(product(c.out.root)); }
 	Buffer& bout = (same || shared) ? bin : *bout_own;
 
-	multi::array_ref<C, D> rin(bin.data(), make_ext<D>(c.in.root, std::make_index_sequence<D>{}));
+	multi::array_ref<C, D> rin(bin.data(), make_ext<D>(c.in.rbase, c.in.root, std::make_index_sequence<D>{}));
 	View<D>                vin{rin.layout(), rin.base()};
 	for(auto const& op : c.in.ops) { vin = apply_op<D>(vin, op); }
 	View<D> vout = vin;
 	if(!same) {
-		auto const&            oroot = shared ? c.in.root : c.out.root;
-		multi::array_ref<C, D> rout(bout.data(), make_ext<D>(oroot, std::make_index_sequence<D>{}));
+		auto const&            oside = shared ? c.in : c.out;
+		multi::array_ref<C, D> rout(bout.data(), make_ext<D>(oside.rbase, oside.root, std::make_index_sequence<D>{}));
 		vout = View<D>{rout.layout(), rout.base()};
 		for(auto const& op : c.out.ops) { vout = apply_op<D>(vout, op); }
 	}
@@ -218,16 +267,23 @@ template<int D> void run_case(Case const& c) {
 	auto const ist = tup_to_vec(vin.sub().strides());
 	auto const osz = tup_to_vec(vout.sub().sizes());
 	auto const ost = tup_to_vec(vout.sub().strides());
+	auto const ifi = firsts_of<D>(vin);
+	auto const ofi = firsts_of<D>(vout);
 	std::cout << "V " << c.id << " in sizes=" << join(isz) << " strides=" << join_strides(ist, isz) << " base=" << (vin.base - bin.data())
-	          << " | out sizes=" << join(osz) << " strides=" << join_strides(ost, osz) << " base=" << (vout.base - bout.data()) << '\n';
+	          << " first=" << join_firsts(ifi, isz)
+	          << " | out sizes=" << join(osz) << " strides=" << join_strides(ost, osz) << " base=" << (vout.base - bout.data())
+	          << " first=" << join_firsts(ofi, osz) << '\n';
 	if(isz != osz) {
 		std::cout << "U " << c.id << " extents differ\n";
 		return;
 	}
 	idx_t const N = product(isz);
 
-	// input data through the library's own indexing; remember where every element lives
+	// input data through the library's own indexing (index tuple = position + first index of every extension);
+	// remember where every element lives
 	std::vector<idx_t> in_off, out_off;  // offsets into the raw buffers (guards included), canonical order
+	in_off.reserve(static_cast<std::size_t>(N));
+	out_off.reserve(static_cast<std::size_t>(N));
 	{
 		std::uint64_t h0 = 1469598103934665603ULL;
 		for(char ch : c.id) { h0 = (h0 ^ static_cast<unsigned char>(ch)) * 1099511628211ULL; }
@@ -235,10 +291,10 @@ template<int D> void run_case(Case const& c) {
 		idx_t              lin = 0;
 		if(N > 0) {
 			do {
-				C* p = elem<D>(vin, x);
+				C* p = elem_at<D>(vin, ifi, x);
 				*p   = C{unit(mix(h0 + 2 * static_cast<std::uint64_t>(lin))), unit(mix(h0 + 2 * static_cast<std::uint64_t>(lin) + 1))};
 				in_off.push_back(p - bin.raw());
-				out_off.push_back(elem<D>(vout, x) - bout.raw());
+				out_off.push_back(elem_at<D>(vout, (c.api == "fftrange") ? std::vector<idx_t>(static_cast<std::size_t>(D), 0) : ofi, x) - bout.raw());
 				++lin;
 			} while(next_idx(x, isz));
 		}
@@ -246,9 +302,16 @@ template<int D> void run_case(Case const& c) {
 	std::vector<C> const snap_in(bin.raw(), bin.raw() + bin.raw_size());
 	std::vector<C> const snap_out(bout.raw(), bout.raw() + bout.raw_size());
 
-	// the call, with the FFTW entry points recorded
+	// the call, with the FFTW entry points recorded; the interposer compares both buffers with their snapshots
+	// right after the real planning call returns (planning must not touch the arrays)
 	C* out_origin = bout.data();  // what logged output pointers are relative to
 	c15_reset();
+	c15_state.watch_ptr[0]   = bin.raw();
+	c15_state.watch_snap[0]  = snap_in.data();
+	c15_state.watch_bytes[0] = static_cast<size_t>(bin.raw_size()) * sizeof(C);
+	c15_state.watch_ptr[1]   = bout.raw();
+	c15_state.watch_snap[1]  = snap_out.data();
+	c15_state.watch_bytes[1] = static_cast<size_t>(bout.raw_size()) * sizeof(C);
 	c15_state.enabled = 1;
 	if(c.api == "fftrange") {
 		// the lazy form of adaptors/fft.hpp: a new array constructed from the range; its elements are then
@@ -273,7 +336,7 @@ template<int D> void run_case(Case const& c) {
 	if(log.nplan >= 1) {
 		std::cout << "G " << c.id << " rank=" << log.rank << " dims=" << iodims(log.dims, log.rank) << " hrank=" << log.hrank
 		          << " hdims=" << iodims(log.hdims, log.hrank) << " in=" << (static_cast<C*>(log.plan_in) - bin.data())
-		          <<  " out=" << (static_cast<C*>(log.plan_out) - out_origin) << " sign=" << log.sign << " flags=" << log.flags << '\n';
+		          <<  " out=" << (static_cast<C*>(log.plan_out) - out_origin) << " sign=" << log.sign << " flags=" << (log.flags & C15_SEMANTIC_FLAGS) << '\n';
 	}
 	{
 		std::cout << "X " << c.id << ' ';
@@ -284,6 +347,7 @@ template<int D> void run_case(Case const& c) {
 				case 'x':
 					std::cout << "execute(" << (static_cast<C*>(log.exec_in) - bin.data()) << ';' << (static_cast<C*>(log.exec_out) - out_origin) << ')';
 					break;
+				case 'o': std::cout << "other-fftw-entry-point"; break;
 				default: std::cout << "destroy";
 			}
 		}
@@ -303,7 +367,20 @@ template<int D> void run_case(Case const& c) {
 		for(idx_t k = GUARD; k != GUARD + bout.n; ++k) {
 			if(!same_bits(bout.raw()[k], snap_out[static_cast<std::size_t>(k)])) { changed.push_back(k - GUARD); }
 		}
-		std::cout << "W " << c.id << ' ' << (changed.empty() ? std::string("") : join(changed)) << '\n';
+		if(N <= W_LIST_MAX) {
+			std::cout << "W " << c.id << ' ' << (changed.empty() ? std::string("") : join(changed)) << '\n';
+		} else {
+			std::int64_t const PM = 1000000007;
+			std::int64_t       lo = INT64_MAX, hi = INT64_MIN, s1 = 0, s2 = 0;
+			for(auto a : changed) {
+				std::int64_t const h = ((a % PM + PM) % PM * 48271 + 11) % PM;
+				lo = std::min<std::int64_t>(lo, a);
+				hi = std::max<std::int64_t>(hi, a);
+				s1 = (s1 + h) % PM;
+				s2 = (s2 + h * h % PM) % PM;
+			}
+			std::cout << "W " << c.id << " n=" << changed.size() << " min=" << lo << " max=" << hi << " s1=" << s1 << " s2=" << s2 << '\n';
+		}
 	}
 
 	// ---- monitors ----
@@ -338,6 +415,7 @@ template<int D> void run_case(Case const& c) {
 	long double const               PI = 3.141592653589793238462643383279502884L;
 	std::vector<std::vector<LC>>    tw(static_cast<std::size_t>(D));
 	for(int k = 0; k != D; ++k) {
+		if(c.which[static_cast<std::size_t>(k)] == 0) { continue; }
 		idx_t const n = isz[static_cast<std::size_t>(k)];
 		for(idx_t j = 0; j < n; ++j) {
 			long double const ang = static_cast<long double>(c.sign) * 2.0L * PI * static_cast<long double>(j) / static_cast<long double>(n);
@@ -347,45 +425,57 @@ template<int D> void run_case(Case const& c) {
 	// strides of the canonical (row-major) numbering of index tuples
 	std::vector<idx_t> cst(static_cast<std::size_t>(D), 1);
 	for(int k = D - 2; k >= 0; --k) { cst[static_cast<std::size_t>(k)] = cst[static_cast<std::size_t>(k + 1)] * isz[static_cast<std::size_t>(k + 1)]; }
-	std::vector<LC> ref(static_cast<std::size_t>(N));
 	long double     maxabs = 0;
 	for(idx_t k = 0; k != N; ++k) { maxabs = std::max<long double>(maxabs, std::abs(snap_in[static_cast<std::size_t>(in_off[static_cast<std::size_t>(k)])])); }
-	if(N > 0) {
-		std::vector<idx_t> x(static_cast<std::size_t>(D), 0);
-		idx_t              lin = 0;
-		do {
-			LC                 acc{0, 0};
-			std::vector<idx_t> t(tsz.size(), 0);
-			if(Nt > 0) {
-				do {
-					idx_t       src = 0;
-					LC          w{1, 0};
-					std::size_t tk = 0;
-					for(int k = 0; k != D; ++k) {
-						auto const ku = static_cast<std::size_t>(k);
-						if(c.which[ku] != 0) {
-							src += t[tk] * cst[ku];
-							w *= tw[ku][static_cast<std::size_t>((t[tk] * x[ku]) % isz[ku])];
-							++tk;
-						} else {
-							src += x[ku] * cst[ku];
-						}
+	// the reference value of the output element at position x
+	auto ref_at = [&](std::vector<idx_t> const& x) {
+		LC                 acc{0, 0};
+		std::vector<idx_t> t(tsz.size(), 0);
+		if(Nt > 0) {
+			do {
+				idx_t       src = 0;
+				LC          w{1, 0};
+				std::size_t tk = 0;
+				for(int k = 0; k != D; ++k) {
+					auto const ku = static_cast<std::size_t>(k);
+					if(c.which[ku] != 0) {
+						src += t[tk] * cst[ku];
+						w *= tw[ku][static_cast<std::size_t>((static_cast<__int128>(t[tk]) * x[ku]) % isz[ku])];
+						++tk;
+					} else {
+						src += x[ku] * cst[ku];
 					}
-					C const v = snap_in[static_cast<std::size_t>(in_off[static_cast<std::size_t>(src)])];
-					acc += w * LC{v.real(), v.imag()};
-				} while(next_idx(t, tsz));
-			}
-			ref[static_cast<std::size_t>(lin)] = acc;
-			++lin;
-		} while(next_idx(x, isz));
-	}
+				}
+				C const v = snap_in[static_cast<std::size_t>(in_off[static_cast<std::size_t>(src)])];
+				acc += w * LC{v.real(), v.imag()};
+			} while(next_idx(t, tsz));
+		}
+		return acc;
+	};
 	long double const tol = 64.0L * DBL_EPSILON * (1.0L + std::log2(static_cast<long double>(std::max<idx_t>(Nt, 1))))
 	                        * std::sqrt(static_cast<long double>(std::max<idx_t>(Nt, 1))) * std::max<long double>(maxabs, 1.0L);
-	long double maxerr = 0;
-	for(idx_t k = 0; k != N; ++k) {
-		C const  got = bout.raw()[out_off[static_cast<std::size_t>(k)]];
-		LC const d   = LC{got.real(), got.imag()} - ref[static_cast<std::size_t>(k)];
+	long double maxerr  = 0;
+	idx_t       checked = 0;
+	auto        check_lin = [&](idx_t lin) {
+		std::vector<idx_t> x(static_cast<std::size_t>(D), 0);
+		idx_t              r = lin;
+		for(int k = 0; k != D; ++k) { x[static_cast<std::size_t>(k)] = r / cst[static_cast<std::size_t>(k)]; r %= cst[static_cast<std::size_t>(k)]; }
+		C const  got = bout.raw()[out_off[static_cast<std::size_t>(lin)]];
+		LC const d   = LC{got.real(), got.imag()} - ref_at(x);
 		maxerr       = std::max(maxerr, std::abs(d));
+		++checked;
+	};
+	bool const full = (static_cast<long double>(N) * static_cast<long double>(std::max<idx_t>(Nt, 1)) <= 2.0e7L);
+	if(N > 0) {
+		if(full) {
+			for(idx_t lin = 0; lin != N; ++lin) { check_lin(lin); }
+		} else {  // a sample of output elements: the first, the last, and 62 more chosen by hash of the case id
+			std::uint64_t h1 = 88172645463325252ULL;
+			for(char ch : c.id) { h1 = mix(h1 ^ static_cast<unsigned char>(ch)); }
+			check_lin(0);
+			check_lin(N - 1);
+			for(int k = 0; k != 62; ++k) { h1 = mix(h1); check_lin(static_cast<idx_t>(h1 % static_cast<std::uint64_t>(N))); }
+		}
 	}
 	bool const dft_ok = (maxerr <= tol) && !(maxerr != maxerr);
 
@@ -400,8 +490,15 @@ template<int D> void run_case(Case const& c) {
 			auto io = vout.sub();
 			fftw::dft(which, io, back);
 			for(idx_t k = 0; k != N; ++k) { got[static_cast<std::size_t>(k)] = bout.raw()[out_off[static_cast<std::size_t>(k)]]; }
-		} else {
+		} else if(c.api == "fftrange") {
 			multi::array<C, D> tmp(make_ext<D>(isz, std::make_index_sequence<D>{}));
+			multi::array_ref<C, D> ro(bout.data(), make_ext<D>(isz, std::make_index_sequence<D>{}));
+			if(N > 0) {
+				fftw::dft(which, ro, tmp, back);
+				for(idx_t k = 0; k != N; ++k) { got[static_cast<std::size_t>(k)] = tmp.data_elements()[k]; }
+			}
+		} else {
+			multi::array<C, D> tmp(vout.sub().extensions());  // the same extensions (index bases included) as the views
 			if(N > 0) {
 				fftw::dft(which, vout.sub(), tmp, back);
 				for(idx_t k = 0; k != N; ++k) { got[static_cast<std::size_t>(k)] = tmp.data_elements()[k]; }
@@ -416,11 +513,19 @@ template<int D> void run_case(Case const& c) {
 	long double const fbtol = 2.0L * tol * std::sqrt(static_cast<long double>(std::max<idx_t>(Nt, 1)));
 	bool const        fb_ok = (fberr <= fbtol) && !(fberr != fberr);
 
+	// the planner flags, judged by FFTW's documented contract alone (fftw3.h / manual 4.3.2), for every size:
+	// FFTW_ESTIMATE (1<<6) or FFTW_WISDOM_ONLY (1<<21) => planning does not write to the arrays; a wisdom-only plan
+	// may be NULL; FFTW_PRESERVE_INPUT (1<<4) => an out-of-place execution keeps its input
+	bool const flags_ok = (log.nplan == 0) || (((log.flags & ((1U << 6) | (1U << 21))) != 0U) && ((log.flags & (1U << 21)) == 0U) && ((log.flags & (1U << 4)) != 0U));
+	// ... and what the interposer saw: both arrays bitwise unchanged across every planning call
+	bool const plan_pure = (log.plan_touched == 0);
+
 	std::cout << "M " << c.id << " dft=" << (dft_ok ? 1 : 0) << " input=" << (input_ok ? 1 : 0) << " frame=" << (frame_ok ? 1 : 0)
-	          << " guards=" << (guards_ok ? 1 : 0) << " fb=" << (fb_ok ? 1 : 0) << '\n';
+	          << " guards=" << (guards_ok ? 1 : 0) << " fb=" << (fb_ok ? 1 : 0) << " planflags=" << (flags_ok ? 1 : 0)
+	          << " planpure=" << (plan_pure ? 1 : 0) << '\n';
 	std::cout << "I " << c.id << " N=" << N << " Nt=" << Nt << " maxerr=" << static_cast<double>(maxerr) << " tol=" << static_cast<double>(tol)
 	          << " fberr=" << static_cast<double>(fberr) << " fbtol=" << static_cast<double>(fbtol) << " nplan=" << log.nplan << " nexec=" << log.nexec
-	          << " ndestroy=" << log.ndestroy << '\n';
+	          << " ndestroy=" << log.ndestroy << " dft-elements-checked=" << checked << (full ? " (all)" : " (sample)") << " flags=" << log.flags << '\n';
 }
 
 static void run_dyn(Case const& c) {
@@ -453,6 +558,10 @@ int main() {
 			is >> c.D;
 		} else if(kw == "inroot") {
 			c.in.root = ints();
+		} else if(kw == "inbase") {
+			c.in.rbase = ints();
+		} else if(kw == "outbase") {
+			c.out.rbase = ints();
 		} else if(kw == "outroot") {
 			c.out.root = ints();
 		} else if(kw == "inop" || kw == "outop") {
@@ -470,7 +579,7 @@ int main() {
 		} else if(kw == "api") {
 			is >> c.api;
 		} else if(kw == "end") {
-			alarm(10);
+			alarm(product(c.in.root) > 60000 ? 60 : 10);
 			try {
 				if(static_cast<int>(c.which.size()) != c.D || static_cast<int>(c.in.root.size()) != c.D) { throw std::runtime_error("malformed case"); }
 				run_dyn(c);
